@@ -18,6 +18,7 @@ import (
 
 	"verifsim/sim/kern"
 	"verifsim/sim/simrt"
+	"verifsim/sim/simsync"
 )
 
 // ErrNotFound is the error resulting if a path search failed to find an executable file.
@@ -122,25 +123,50 @@ type stdinPipe struct {
 	c      *Cmd
 	buf    []byte
 	closed bool
+	gate   simsync.WaitGroup // open once Start has been attempted
+	gated  bool
+}
+
+// release lets a writer that filled the pipe before the process was started go on.
+func (p *stdinPipe) release() {
+	if p != nil && p.gated {
+		p.gated = false
+		p.gate.Done()
+	}
 }
 
 func (p *stdinPipe) Write(b []byte) (int, error) {
 	if p.closed {
 		return 0, fs.ErrClosed
 	}
-	if !p.c.started {
-		if len(p.buf)+len(b) > pipeBuf {
-			// a real pipe is full and nobody reads it before the process is started
-			kern.Call(kern.Req{Op: kern.OpBlockForever, S: "write to stdin pipe of a process that is not started: pipe buffer full"})
+	written := 0
+	if !p.c.started && !p.c.finished {
+		room := pipeBuf - len(p.buf)
+		if len(b) <= room {
+			p.buf = append(p.buf, b...)
+			return len(b), nil
 		}
-		p.buf = append(p.buf, b...)
-		return len(b), nil
+		// a real pipe takes what fits and blocks the writer: nobody reads before the process is
+		// started. A writer that is also the one who would start the process waits for ever (the
+		// kernel reports the deadlock); a writer on a goroutine of its own goes on after Start.
+		p.buf = append(p.buf, b[:room]...)
+		b = b[room:]
+		written = room
+		kern.Call(kern.Req{Op: kern.OpNote, S: "write to stdin pipe of a process that is not started: pipe buffer full"})
+		p.gate.Wait()
+		if !p.c.started {
+			// the start failed: the read end is gone
+			return written, &fs.PathError{Op: "write", Path: "|1", Err: syscall.EPIPE}
+		}
+	}
+	if p.closed {
+		return written, fs.ErrClosed
 	}
 	r := kern.Call(kern.Req{Op: kern.OpProcStdin, A: int64(p.c.pid), Data: b})
 	if r.Status != 0 {
-		return 0, &fs.PathError{Op: "write", Path: "|1", Err: syscall.Errno(r.Status)}
+		return written, &fs.PathError{Op: "write", Path: "|1", Err: syscall.Errno(r.Status)}
 	}
-	return len(b), nil
+	return written + len(b), nil
 }
 
 func (p *stdinPipe) Close() error {
@@ -167,7 +193,8 @@ func (c *Cmd) StdinPipe() (io.WriteCloser, error) {
 			return nil, &fs.PathError{Op: "pipe", Path: "|0", Err: syscall.Errno(r.Status)}
 		}
 	}
-	c.pipe = &stdinPipe{c: c}
+	c.pipe = &stdinPipe{c: c, gated: true}
+	c.pipe.gate.Add(1)
 	c.Stdin = pipeMarker{}
 	return c.pipe, nil
 }
@@ -186,8 +213,12 @@ func (c *Cmd) Start() error {
 	}
 	var stdin []byte
 	closed := true
+	taken := 0
 	if c.pipe != nil {
+		// what was written into the pipe so far goes to the process with its start; a writer on
+		// another goroutine may write or close while the start is in progress (handled below)
 		stdin = c.pipe.buf
+		taken = len(stdin)
 		closed = c.pipe.closed
 	} else if c.Stdin != nil {
 		b, err := io.ReadAll(c.Stdin)
@@ -221,6 +252,7 @@ func (c *Cmd) Start() error {
 				kern.Call(kern.Req{Op: kern.OpPipeOpen, A: -1})
 			}
 			c.finished = true
+			c.pipe.release()
 			return &fs.PathError{Op: "fork/exec", Path: c.Path, Err: syscall.ENOENT}
 		}
 	}
@@ -228,9 +260,23 @@ func (c *Cmd) Start() error {
 	c.pid = int(r.A)
 	if r.Status != 0 {
 		c.finished = true
+		c.pipe.release()
 		return &fs.PathError{Op: "fork/exec", Path: c.Path, Err: syscall.Errno(r.Status)}
 	}
+	if c.pipe != nil {
+		// the pipe's content, in order, including what another goroutine appended meanwhile; only
+		// then do writers talk to the process directly
+		for len(c.pipe.buf) > taken {
+			chunk := c.pipe.buf[taken:]
+			taken = len(c.pipe.buf)
+			kern.Call(kern.Req{Op: kern.OpProcStdin, A: int64(c.pid), Data: chunk})
+		}
+	}
 	c.started = true
+	if c.pipe != nil && c.pipe.closed && !closed {
+		kern.Call(kern.Req{Op: kern.OpProcStdin, A: int64(c.pid), B: 1})
+	}
+	c.pipe.release()
 	c.Process = &Process{Pid: 10000 + c.pid, pid: c.pid}
 	if c.ctx != nil && c.ctx.Done() != nil {
 		// like os/exec: when the context is done the process is killed
